@@ -27,7 +27,9 @@ RULE = ("all layouts: a, b each define a subset of {p,q} and export a subset of 
         "(none / all / every non-empty import list over a's exports), user defines {} or {p}, imports from a "
         "(none / all / [p]) and from b (test predicate only / everything); b loaded from a file (all layouts) and "
         "from consult text (layouts where user imports only the test predicate from b; consulting a module text does not import into user, so user reaches it qualified); 15 call patterns x {p,q} from inside b and "
-        "from user + one independence check. Non-trivial: the called name is defined in >= 2 of a, b, user.")
+        "from user + one independence check; a meta-declaration family (a exports a declared meta-predicate mp/2 and a plain "
+        "mq/2; b imports by every mode incl. a list naming neither, and defines its own plain mp/2 / mq/2 that return the raw "
+        "argument; 6 call patterns x 2 names x 2 contexts: a plain local definition must see its argument unqualified). Non-trivial: the called name is defined in >= 2 of a, b, user.")
 LEVEL_TEXT = ("bounded exhaustive exploration of program layouts; every call is executed on the real loader and "
               "dispatch and compared with the resolution rule of the statement")
 ASSUMPTIONS = ["files written through the worker (put_file) under /verif/work/agentG/c42",
@@ -112,7 +114,7 @@ NSH = {"quick": 48, "thorough": 48}
 
 def shards(tier):
     n = NSH[tier]
-    return [("lay", i, n) for i in range(n)]
+    return [("lay", i, n) for i in range(n)] + [("meta", i, 4) for i in range(4)]
 
 
 # ---------------------------------------------------------------------------
@@ -402,7 +404,152 @@ def pi_matches(txt, name):
     return txt == name + "/1"
 
 
+# ---------------------------------------------------------------------------
+# meta-declaration family: module a exports mp/2 declared meta_predicate mp(0, ?), a plain mq/2 and
+# other/0; module b imports from a (not at all / everything / each import list, also one that names
+# only other/0) and defines its own PLAIN mp/2 and/or mq/2. Every definition returns its raw first
+# argument, so an unwanted module qualification of the argument is observable.
+
+META_IMPORTS = ["none", "all", ["other"], ["mq"], ["mp"], ["mp", "mq"], ["mp", "mq", "other"]]
+
+
+def meta_layouts():
+    out = []
+    for imp in META_IMPORTS:
+        for db in subsets(["mp", "mq"]):
+            for meta_first in (False, True):       # is b loaded before or after user imported a?
+                out.append({"meta": True, "imp": imp, "db": db, "user_imports_a_first": meta_first})
+    return out
+
+
+def meta_names(tag):
+    return {"a": "ma_" + tag, "b": "mb_" + tag, "mp": "mp_" + tag, "mq": "mq_" + tag, "other": "mo_" + tag,
+            "t": "mt_" + tag}
+
+
+META_ARITY = {"mp": 2, "mq": 2, "other": 0}
+
+META_CALLS = [
+    ("unq", "{x}(job, R)"),
+    ("qual_b", "{b}:{x}(job, R)"),
+    ("qual_a", "{a}:{x}(job, R)"),
+    ("call", "call({x}(job, R))"),
+    ("callvar", "G = {x}(job, R), call(G)"),
+    ("call3", "call({x}, job, R)"),
+]
+
+
+def meta_texts(lay, tag):
+    nm = meta_names(tag)
+    apath = "%s/%s" % (DIR, nm["a"])
+    a = ":- module(%s, [%s/2, %s/2, %s/0]).\n" % (nm["a"], nm["mp"], nm["mq"], nm["other"])
+    a += ":- meta_predicate(%s(0, ?)).\n" % nm["mp"]
+    a += "%s(G, a(G)).\n%s(G, a(G)).\n%s.\n" % (nm["mp"], nm["mq"], nm["other"])
+    b = ":- module(%s, [%s/3]).\n" % (nm["b"], nm["t"])
+    imp = lay["imp"]
+    if imp == "all":
+        b += ":- use_module('%s').\n" % apath
+    elif imp != "none":
+        b += ":- use_module('%s', [%s]).\n" % (apath, ",".join("%s/%d" % (nm[x], META_ARITY[x]) for x in imp))
+    for x in lay["db"]:
+        b += "%s(G, b(G)).\n" % nm[x]
+    for x in ("mp", "mq"):
+        for (pid, tmpl) in META_CALLS:
+            b += "%s(%s, %s, R) :- %s.\n" % (nm["t"], x, pid, tmpl.format(x=nm[x], a=nm["a"], b=nm["b"]))
+    bpath = "%s/%s" % (DIR, nm["b"])
+    if lay["user_imports_a_first"]:
+        u = ":- use_module('%s').\n:- use_module('%s').\n" % (apath, bpath)
+    else:
+        u = ":- use_module('%s').\n:- use_module('%s', [%s/0]).\n" % (bpath, apath, nm["other"])
+    return nm, a, b, u
+
+
+def meta_expect(lay, ctx, x, pid):
+    """-> ('silent', why) | ('existence',) | (definer, set of acceptable argument shapes)"""
+    imp = lay["imp"]
+    b_imports = imp == "all" or (isinstance(imp, list) and x in imp)
+    b_defines = x in lay["db"]
+    if pid == "qual_a":
+        target = "a"
+    elif pid == "qual_b" or ctx == "b":
+        if b_defines and b_imports:
+            return ("silent", "b-defines-and-imports-the-same-name")
+        target = "b" if b_defines else "a" if b_imports else None
+        if target == "a" and pid == "qual_b":
+            return ("silent", "qualified-call-of-imported-predicate")
+    else:   # unqualified from user
+        target = "a" if (lay["user_imports_a_first"] ) else None
+    if target is None:
+        return ("existence",)
+    if target == "b":
+        return ("b", {"job"})                     # a plain local definition sees its argument unqualified
+    if x == "mq":
+        return ("a", {"job"})                     # plain predicate of a
+    if pid == "qual_a":
+        return ("silent", "meta-call-qualified-as-a-whole")
+    return ("a", {"job", ctx + ":job"})           # declared meta argument: caller's module, representation free
+
+
+def judge_meta(w, lay, idx):
+    tag = "%dm" % idx
+    nm, a, b, u = meta_texts(lay, tag)
+    w.put_file("%s/%s.pl" % (DIR, nm["a"]), a.encode())
+    w.put_file("%s/%s.pl" % (DIR, nm["b"]), b.encode())
+    r = safe_consult(w, u)
+    out = []
+    if r.get("out", "").strip() or r.get("err", "").strip() or "panic" in r:
+        out.append((False, "load-problem", ("meta-family load problem", "loads silently",
+                                            (r.get("out", "") + r.get("err", ""))[:300], {"which": "load"}), None))
+    cl = []
+    for x in ("mp", "mq"):
+        for (pid, tmpl) in META_CALLS:
+            cl.append(("b", x, pid, "g(%s:%s(%s, %s, R))" % (nm["b"], nm["t"], x, pid)))
+            cl.append(("user", x, pid, "g((%s))" % tmpl.format(x=nm[x], a=nm["a"], b=nm["b"])))
+    rs = px.run_goals(w, [c[3] for c in cl])
+    for (ctx, x, pid, goal), res in zip(cl, rs):
+        exp = meta_expect(lay, ctx, x, pid)
+        # observation: who answered, and the shape of the argument it saw
+        if res.abn:
+            obs = ("abnormal", res.abn)
+        elif res.status == "exc":
+            f = res.formal()
+            obs = ("existence",) if isinstance(f, tuple) and f[:2] == ("existence_error", "procedure") else ("error", px.formal_sig(f))
+        elif len(res.sols) == 1 and isinstance(res.sols[0].get("R"), tuple) and res.sols[0]["R"][0] in ("a", "b"):
+            arg = res.sols[0]["R"][1]
+            if isinstance(arg, tuple) and arg[0] == ":" and len(arg) == 3:
+                shape_ = "%s:job" % ({nm["a"]: "a", nm["b"]: "b"}.get(arg[1], arg[1])) if arg[2] == "job" else "other"
+            else:
+                shape_ = "job" if arg == "job" else "other"
+            obs = (res.sols[0]["R"][0], shape_)
+        else:
+            obs = ("other", str(res.sols)[:80])
+        sample = {"layout": lay, "context": ctx, "goal": goal[2:-1].replace(tag, "N"), "expected": str(exp), "observed": str(obs)}
+        if exp[0] == "silent":
+            out.append((True, "meta-family:silent:%s" % exp[1], None, sample))
+            continue
+        if exp[0] == "existence":
+            ok = obs == ("existence",)
+            label = "meta-family:existence_error"
+            want = "existence_error"
+        else:
+            ok = obs[0] == exp[0] and len(obs) == 2 and obs[1] in exp[1]
+            label = "meta-family:%s-%s-argument-%s" % (exp[0], "meta" if len(exp[1]) > 1 else "plain",
+                                                       obs[1] if ok else "wrong")
+            want = "%s sees %s" % (exp[0], "|".join(sorted(exp[1])))
+        viol = None
+        if not ok:
+            sig = "meta-family %s %s from=%s b-imports-it=%s b-defines-it=%s user-imported-a-first=%s exp=%s obs=%s" % (
+                x, pid, ctx, "yes" if (lay["imp"] == "all" or (isinstance(lay["imp"], list) and x in lay["imp"])) else "no",
+                "yes" if x in lay["db"] else "no", "yes" if lay["user_imports_a_first"] else "no",
+                want, " ".join(str(o) for o in obs))
+            viol = (sig, want, " ".join(str(o) for o in obs), {"ctx": ctx, "x": x, "pid": pid})
+        out.append((True, label, viol, sample))
+    return out
+
+
 def run_shard(w, shard, tier):
+    if shard[0] == "meta":
+        return run_meta_shard(w, shard, tier)
     _, idx, n = shard
     acc = px.ShardAcc(max_viol=1000)
     done = 0
@@ -425,10 +572,26 @@ def run_shard(w, shard, tier):
     return acc.result()
 
 
+def run_meta_shard(w, shard, tier):
+    _, idx, n = shard
+    acc = px.ShardAcc(max_viol=1000)
+    for k, lay in enumerate(meta_layouts()):
+        if k % n != idx:
+            continue
+        for (nt, label, viol, sample) in judge_meta(w, lay, k):
+            acc.case(nt, label, sample=sample)
+            if viol:
+                sig, exp, obs, which = viol
+                acc.violation(sig, {"layout": lay, "index": k, "which": which}, expected=exp, observed=obs)
+        acc.extra["meta_family_layouts"] += 1
+    return acc.result()
+
+
 def recheck(w, case, tier):
     lay = case["layout"]
     which = case["which"]
-    for (nt, label, viol, sample) in judge_layout(w, lay, case["index"]):
+    judge_fn = judge_meta if lay.get("meta") else judge_layout
+    for (nt, label, viol, sample) in judge_fn(w, lay, case["index"]):
         if not viol:
             continue
         sig, exp, obs, wh = viol
